@@ -8,8 +8,12 @@
 //!                                                                           every later read sees (real2, mono2) - time
 //!                                                                           passes between the two reads of now()
 //!     R t                                                                   daemon restart at time t (threads end, new ones start at the next P)
+//!     K t                                                                   the daemon dies at time t in the middle of a publication: its threads are gone and
+//!                                                                           the segment is left as write() leaves it after the odd generation store and the
+//!                                                                           as-of field of the record it was storing (as-of = t); everything else is the old record
+//!     F                                                                     the client process is replaced by a new one (attaches at its next call)
 //! -> per P: `p:<as_s>:<as_n>:<va_s>:<va_n>:<bound>:<drift>:<status>` (record in the segment after the iteration)
-//!    per C: `c:<result of ClockBoundClient::now()>:<order of the clock reads, R = realtime, M = monotonic>`;  per R: `r`;  last: ORDER:...
+//!    per C: `c:<result of ClockBoundClient::now()>:<order of the clock reads, R = realtime, M = monotonic>`;  per R: `r`; per K: `k`; per F: `f`;  last: ORDER:...
 use crate::util::*;
 use crate::vclock;
 use bytes::BytesMut;
@@ -336,6 +340,31 @@ pub fn run(toks: &[&str]) -> String {
                 };
                 let order = sh.call.lock().unwrap().take().map(|c| c.3).unwrap_or_default();
                 out.push(format!("{}:{}", s, if order.is_empty() { "-".to_string() } else { order }));
+            }
+            "K" => {
+                let t: i64 = p(toks[i + 1]);
+                i += 2;
+                *sh.cur.lock().unwrap() = None;
+                if let Some(d) = daemon.take() {
+                    stop_daemon(d);
+                }
+                while pub_rx.try_recv().is_ok() {}
+                set_time_ns(t);
+                if seg_path.exists() {
+                    let map = RawMap::open(&seg_path, 72);
+                    let g = map.u16_at(OFF_GENERATION);
+                    if g != 0 {
+                        map.set_u16(OFF_GENERATION, g | 1);
+                        let ts = libc::timespec { tv_sec: t.div_euclid(NS), tv_nsec: t.rem_euclid(NS) };
+                        unsafe { std::ptr::copy_nonoverlapping(&ts as *const libc::timespec as *const u8, map.base.add(OFF_RECORD), 16) };
+                    }
+                }
+                out.push("k".into());
+            }
+            "F" => {
+                i += 1;
+                client = None;
+                out.push("f".into());
             }
             "R" => {
                 let t: i64 = p(toks[i + 1]);
